@@ -16,6 +16,12 @@ def main():
     ap.add_argument("--no-build", action="store_true")
     a = ap.parse_args()
     seed = int(os.environ.get("VERIF_SEED", "0") or 0)
+    if a.replay:
+        # a replay file records the seed and tier of the run that produced it: the check is deterministic given those
+        import json
+        rp = json.load(open(a.replay))
+        seed, a.tier = int(rp.get("seed", seed)), rp.get("tier", a.tier)
+        print("replaying %s: seed=%d tier=%s key=%s" % (a.replay, seed, a.tier, rp.get("key", rp.get("kind"))))
     ctx = core.Ctx(a.pid, a.tier, seed)
     ctx.replay = a.replay
     os.makedirs(os.path.join(core.ROOT, "build"), exist_ok=True)
